@@ -140,6 +140,16 @@ def check(ctx, rep):
         rep.ob('numbers.sign-applies-to-every-form', 'parse_number: the sign is applied to `%s`' % short(a.value, 50), ok,
                'a minus sign before this operand form is ignored (e.g. DRAW "U-=A;" moves up instead of down)', ctx.where(a))
     rep.floor('numbers.sign-applies-to-every-form', len(srcs), 3, 'operand forms')
+    # a variable (or VARPTR$) operand is converted the way BASIC converts a number to an integer -- the value's own to_int,
+    # which rounds; Python's int() truncates (A=7.6: DRAW "R=A;" moves 8, not 7)
+    var_forms = [a for a in srcs if 'stepval' in [x.id for x in ast.walk(a.value) if isinstance(x, ast.Name)]]
+    for a in var_forms:
+        v = a.value
+        ok = isinstance(v, ast.Call) and isinstance(v.func, ast.Attribute) and v.func.attr == 'to_int' and not v.args and not v.keywords \
+            and norm(v.func.value) == 'values.pass_number(stepval)'
+        rep.ob('numbers.variable-operand-rounded', 'parse_number: %s' % short(a, 60), ok,
+               'the operand is not converted with the value`s own to_int(): a fractional variable is truncated instead of rounded, or a string is accepted', ctx.where(a))
+    rep.floor('numbers.variable-operand-rounded', len(var_forms), 2, 'variable operand forms')
     # after `=` a byte above the largest VARPTR$ type code starts a variable *name*; the type codes are the value
     # sizes 2, 3, 4, 8, so the boundary is the size of a double
     flp = ctx.flow(pn)
@@ -252,6 +262,9 @@ def variants(ctx):
         Va('reset-keeps-draw-pen', 'break', G, in_fn('Graphics.reset', lambda fn: mu.remove_stmt(fn, mu.text_is('self._draw_current = None'))), expect='reset.draw-state'),
         Va('double-varptr-taken-for-a-name', 'break', 'pcbasic/basic/mlparser.py',
            lambda tree: mu.replace_expr(mu.find_def(tree, 'MLParser.parse_number'), mu.text_is('ord(c) > 8'), 'ord(c) >= 8'), expect='numbers.varptr'),
+        Va('variable-operand-truncated', 'break', 'pcbasic/basic/mlparser.py',
+           lambda tree: mu.replace_expr(mu.find_def(tree, 'MLParser.parse_number'), mu.text_is('values.pass_number(stepval).to_int()'), 'int(values.pass_number(stepval).to_value())', count=2),
+           expect='numbers.variable-operand-rounded'),
         Va('minus-ignored-before-variable', 'break', 'pcbasic/basic/mlparser.py', lambda tree: _sign_literal_only(mu.find_def(tree, 'MLParser.parse_number')), expect='numbers.sign'),
         Va('E-goes-down', 'break', G, in_fn('Graphics._draw', lambda fn: mu.replace_expr(fn, mu.text_is("c in (b'U', b'E', b'H')"), "c in (b'U', b'H')")), expect='moves.direction'),
         Va('L-and-R-swapped', 'break', G, in_fn('Graphics._draw', _swap_lr), expect='moves.direction'),
